@@ -276,6 +276,10 @@ def run_case(case, tier):
             bad = [hex(m) for m in evs if m & (IN_MODIFY | IN_CLOSE_WRITE)]
             if bad:
                 problems.append("the target name was written in place (inotify %s)" % bad[:5])
+            if prior_bytes is not None and final is not None and any(m & (IN_DELETE | IN_MOVED_FROM) for m in evs):
+                # old file there before, a file there afterwards: the name must never be absent in between
+                problems.append("the target name was removed before the new content was in place (inotify %s)"
+                                % [hex(m) for m in evs][:6])
         if failure_mode or case["prior"] == "userfile" or (
                 isinstance(exp[1], bytes) and size >= 4096 and case["prior"] == "generated"):
             out.nontrivial = True
